@@ -75,7 +75,18 @@ def classics():
         ("a", ("i", "j"), ("*", T("b", "i", "k"), T("c", "k", "j"))),
         ("a", ("i",), ("*", ("*", T("b", "i", "j"), T("c", "j", "k")), T("d", "k"))),
         ("a", ("i",), ("+", ("*", T("b", "i", "j"), T("c", "j")), ("*", T("d", "i", "k"), T("e", "k")))),
+        # one tensor used twice under different parent positions of the same loop: Gram product and matrix square
+        ("a", ("i", "k"), ("*", T("b", "i", "j"), T("b", "k", "j"))),
+        ("a", ("i", "k"), ("*", T("b", "i", "j"), T("b", "j", "k"))),
     ]
+
+
+def single_index_merges(leaves=4):
+    """Every tree over `leaves` distinct vectors of one index written to a vector: a(i) = (b(i) + c(i)) * d(i) + e(i).
+    These are the programs whose merge lattice has many sub-graphs over one index (order of the merge loops)."""
+    progs = space.enumerate_programs(leaves, leaves + 1, min_leaves=leaves, repeats=False, ops="+*", target_orders=(1,),
+                                     max_order=1, min_total_order=leaves + 1)
+    return [p for p in progs if all(l[2] == ("i",) for l in space.tree_leaves(p[2]))]
 
 
 def dedupe(progs):
@@ -96,6 +107,7 @@ def programs(tier: str, flavour: str = "full"):
         progs = P(2, 3) + P(2, 4, min_total_order=4, repeats=False, ops="+*") + P(3, 2, ops="+*", min_leaves=3)
         progs += P(2, 2, literals=("2",), min_leaves=2, repeats=False)
         progs += classics()
+        progs += single_index_merges()
         # an order-3 copy and a cyclic transpose: the only order-3 sparse outputs of this space
         progs += [("a", ("i", "j", "k"), ("t", "b", ("i", "j", "k"))), ("a", ("i", "j", "k"), ("t", "b", ("k", "i", "j")))]
     elif flavour == "full":
@@ -109,6 +121,7 @@ def programs(tier: str, flavour: str = "full"):
         progs += products_of_partial_sums()
         progs += renamed_base()
         progs += classics()
+        progs += single_index_merges()
     else:
         progs = P(2, 5)
         progs += P(3, 4, min_leaves=3)
@@ -120,6 +133,7 @@ def programs(tier: str, flavour: str = "full"):
         progs += products_of_partial_sums()
         progs += renamed_base()
         progs += classics()
+        progs += single_index_merges() + single_index_merges(5)
     # literals whose int32 lowering overflows: 65536 * 65536, 2^32 (the shortcut in identifiable_expression/_to_ir.py)
     progs += P(3, 1, literals=("65536",), min_leaves=3, ops="*", repeats=False, target_orders=(0, 1))
     progs += P(2, 1, literals=("4294967296", "99999999999"), min_leaves=2, ops="*+", repeats=False, target_orders=(0, 1))
@@ -130,12 +144,12 @@ def programs(tier: str, flavour: str = "full"):
 
 def describe(tier, flavour):
     return {
-        "light": "an order-3 copy and a cyclic transpose; matrix product, chained contraction and sum of two contractions in all formats; L<=2,S<=3; L=2,S=4 (+,*; no repeats); L=3,S<=2 (+,*); literal 2 with L=2,S<=2; int32-overflowing literals",
-        "full": "matrix product, chained contraction and sum of two contractions in all formats; L<=2,S<=4 all shapes incl. repeated tensors; L=3,S<=3; literals {0,2,2.5} with L<=2,S<=3 and {2} with "
+        "light": "the 40 four-leaf +/* trees over vectors of one index (merge lattices); an order-3 copy and a cyclic transpose; matrix product, Gram product, matrix square, chained contraction and sum of two contractions in all formats; L<=2,S<=3; L=2,S=4 (+,*; no repeats); L=3,S<=2 (+,*); literal 2 with L=2,S<=2; int32-overflowing literals",
+        "full": "the 40 four-leaf +/* trees over vectors of one index (merge lattices); matrix product, Gram product, matrix square, chained contraction and sum of two contractions in all formats; L<=2,S<=4 all shapes incl. repeated tensors; L=3,S<=3; literals {0,2,2.5} with L<=2,S<=3 and {2} with "
                 "L=3,S<=2; all order-3 copies/transposes (L=1,S=6); the 128 four-leaf and 448 five-leaf products of partial sums "
                 "(b() + c(i)) * (d() + e(i)); the L<=2,S<=3 space again under a reversed naming (z = y.., i<->k); "
                 "int32-overflowing literals",
-        "wide": "L<=2,S<=5; L=3,S<=4; L=2,S=6 (+,*); L=4,S<=3 (+,*); literals {0,1,2,2.5,0.0} L<=2,S<=4; {2,2.5} "
+        "wide": "four- and five-leaf +/* trees over vectors of one index; L<=2,S<=5; L=3,S<=4; L=2,S=6 (+,*); L=4,S<=3 (+,*); literals {0,1,2,2.5,0.0} L<=2,S<=4; {2,2.5} "
                 "L=3,S<=3; order-3 copies/transposes; products of partial sums; renamed base space; int32-overflowing "
                 "literals",
     }[flavour]
